@@ -78,6 +78,12 @@ var plans = map[string]PropPlan{
 		QuickSecs: 90, ThoroughSecs: 1200,
 		Assumptions: []string{"scripted sources/sinks cover the io.Reader/io.Writer contract answers listed in DESIGN.md 3/C16; after its script a source answers (0, io.EOF) and a sink accepts everything", "a call may fail although the source delivered data together with the error; the stream (total bytes after a drain) is what is compared"},
 	},
+	"C18": {
+		Quick:     []Plan{{Scenario: "pollmgr", PB: 2, DB: 1}},
+		Thorough:  []Plan{{Scenario: "pollmgr", PB: 3, DB: 2}},
+		QuickSecs: 90, ThoroughSecs: 900,
+		Assumptions: append([]string{"reconfiguration (SetNumLoops / SetLoadBalance) is only applied between phases, never concurrently with Pick (documented contract)", "fastrand.Intn of the Random balancer is an explored environment choice"}, schedAssume...),
+	},
 	"C17": {
 		Quick:     []Plan{{Scenario: "mux.shardq", PB: 2, DB: 1}},
 		Thorough:  []Plan{{Scenario: "mux.shardq", PB: 3, DB: 2}},
